@@ -733,7 +733,8 @@ DFR8getrig(int32 file_id, uint16 ref, DFRrig *rig)
                     DFdifree(GroupID);
                     HGOTO_ERROR(DFE_GETELEM, FAIL);
                 }
-                if ((ntstring[2] != 8) || (ntstring[1] != DFNT_UCHAR)) {
+                /* (the GR interface describes the same 8-bit unsigned data as DFNT_UINT8) */
+                if ((ntstring[2] != 8) || (ntstring[1] != DFNT_UCHAR && ntstring[1] != DFNT_UINT8)) {
                     DFdifree(GroupID);
                     HGOTO_ERROR(DFE_BADCALL, FAIL);
                 }
